@@ -60,6 +60,7 @@ Clauses(o, ev, o2) ==
                 Ctx == IF \E a \in DOMAIN o.apps : App(o, a).parked = "send" /\ App(o, a).recvd < Req(o, a).body
                        THEN "final-send-parked-body-unread"
                        ELSE IF \E a \in DOMAIN o.apps : App(o, a).parked = "send" THEN "send-parked"
+                       ELSE IF UnreadLeft(o) THEN "request-messages-unread"
                        ELSE "after-response"
             IN (IF \E k \in 1..n : NotClosed(k) THEN <<F("not-closed", Ctx)>> ELSE <<>>)
             \o (IF \E k \in 1..(IF n > 0 THEN n - 1 ELSE 0) : Stalled(k) THEN <<F("pipeline-stalled", "")>> ELSE <<>>)
